@@ -1212,18 +1212,18 @@ Proof.
   assert (SOK : shape_ok (mk x y z 0 0) = true) by exact SH.
   assert (EBB : b = B x y z ci ch) by exact EB.
   assert (NH : num_hops b = x + y + z) by (rewrite EB; reflexivity).
-  rewrite NH.
+  rewrite NH. clear NH EB EM W U. subst b.
   destruct (N.leb_spec (x + y + z) ch) as [L|L]; [reflexivity|].
   destruct (N.eqb_spec (ch + 1) (x + y + z)) as [E|E].
-  - rewrite EBB at 1 2. rewrite (inc_last x y z SOK ci ch E). cbn [fst snd inc_code]. rewrite <- EBB.
+  - rewrite (inc_last x y z SOK ci ch E). cbn [fst snd inc_code with_base pbase infos hops].
     rewrite N.eqb_refl, path_eqb_refl. reflexivity.
   - assert (L2 : ch + 1 < x + y + z) by lia.
-    rewrite EBB at 1 2 3 4 5. rewrite (inc_mid x y z SOK ci ch L2).
-    cbn [fst snd inc_code B decoded_base pm curr_inf curr_hf mk pbase].
+    rewrite (inc_mid x y z SOK ci ch L2).
+    cbn [fst snd inc_code with_base B decoded_base pm curr_inf curr_hf mk pbase infos hops].
     rewrite !N.eqb_refl. cbn [andb].
     change {| curr_inf := ci; curr_hf := ch; seg0 := x; seg1 := y; seg2 := z |} with (mk x y z ci ch).
     rewrite (seg_at_idx x y z SOK ci ch (ch + 1) L2). unfold opt_eqb, option_eqb. rewrite N.eqb_refl. cbn [andb].
-    rewrite EBB. rewrite B_with. apply path_eqb_refl.
+    apply path_eqb_refl.
 Qed.
 
 Lemma step_oracle_raw p o : canonical p -> step_oracle p o (step true p o) = true.
